@@ -151,9 +151,23 @@ def same(a, b):
     return (a["r"] == "err" and b["r"] == "err") or (a["r"] == "ok" and b["r"] == "ok" and a["tree"] == b["tree"])
 
 
+_LOADERS = {}
+
+
+def _one_loader(schema, ovs):
+    # one ConfigLoader per schema object and worker process, serving every scenario that comes its way (the
+    # scratch directories are recycled, so the same URLs come back with other contents and after failed loads)
+    import ZConfig.loader
+    assert not ovs
+    if id(schema) not in _LOADERS:
+        _LOADERS[id(schema)] = (schema, ZConfig.loader.ConfigLoader(schema))
+    return _LOADERS[id(schema)][1]
+
+
 def compare(ws, sch, rec, item, emit):
     sc, outs = scenario._CTX["sc"], scenario._CTX["outs"]
-    got, _ = scenario.run_real(ws, sch, rec, item)
+    reuse = item["meta"].get("one_loader")
+    got, _ = scenario.run_real(ws, sch, rec, item, loader_factory=_one_loader if reuse else None)
     want = emit["o"]
     why = None
     if got["r"] != want["r"]:
@@ -164,7 +178,7 @@ def compare(ws, sch, rec, item, emit):
         why = "value-tree"
     if why is None and item["twin"] is not None:
         twin = sc.items[item["twin"]]
-        got2, _ = scenario.run_real(ws, sch, rec, twin)
+        got2, _ = scenario.run_real(ws, sch, rec, twin, loader_factory=_one_loader if reuse else None)
         if not same(got, got2):
             why = "include-differs-from-inline"
     if why is None:
@@ -180,7 +194,7 @@ def run(chk):
     chk.rule = ("base texts: random conforming texts of each family schema, half of them damaged by 1-2 line-level faults, a "
                 "third with a %define and a use of it; for each, the inlined scenario and up to 4 cut variants (1..3 balanced "
                 "cuts, nested, fragments in same / sub / parent directory, decoy files at the places a wrong base URL would "
-                "resolve to; a quarter of them named through a symbolic link that leads to another directory) plus one variant with an unbalanced fragment; one more schema has an abstract slot filled by "
+                "resolve to; a quarter of them named through a symbolic link that leads to another directory; half of the variants and their inlined twins go through one long-lived ConfigLoader per schema, the others through a loader of their own) plus one variant with an unbalanced fragment; one more schema has an abstract slot filled by "
                 "%import-ed types, with %import lines and uses of imported types at random top-level positions; non-trivial = at least one %include was produced")
     # + a schema with an abstract slot whose implementers come from %import-ed packages: imports before, inside
     #   and after the fragments (the vocabulary of a load is shared by all its resources, in reading order)
@@ -219,7 +233,8 @@ def run(chk):
                 if c is None:
                     continue
                 files, desc, resolve = c
-                sc.add(sid, files, twin=base, meta={"cuts": desc, "resolve": resolve, "main_link": rng.random() < 0.25})
+                sc.add(sid, files, twin=base, meta={"cuts": desc, "resolve": resolve, "main_link": rng.random() < 0.25,
+                                                     "one_loader": v % 2 == 1})
             di = double_include(rng, lines)
             if di is not None:
                 b2 = sc.add(sid, {"d/main.conf": di[0]}, meta={"nontrivial": False})
